@@ -87,7 +87,7 @@ CHECKS.update({
                 technique="contracts decided exactly by symbolic execution of the real code (polynomial identities) + runtime contracts as bounded stand-in",
                 note=OTHER_NOTE + " Shims of the symbolic runs are listed in evidence."),
     "C08": dict(cat="other", ref="DESIGN §8 C08, S.2",
-                text="Call by contract at the local eigensolver: with gs.eigh_direct replaced by a recording stub that returns an arbitrary eigenvector, the real single_sweep (1site / 2site, both directions, with and without the target omega) poses one eigenproblem per site in sweep order, each matrix equals J^H H J (resp. J^H (H-omega)^2 J) for the frames of the state held at that moment, each problem is posed in the state the previous update produced, the reported energies are the eigensolver's and the state handed back carries the eigenvector of the requested site - exact for all tensor values. "
+                text="Call by contract at the local eigensolver: with gs.eigh_direct replaced by a recording stub that returns an arbitrary eigenvector, the real single_sweep (1site / 2site, both directions, with and without the target omega) poses one eigenproblem per site in sweep order, each matrix equals J^H H J (resp. J^H (H-omega)^2 J) for the frames of the state held at that moment, each problem is posed in the state the previous update produced, the reported energies are the eigensolver's and the state handed back carries the eigenvector of the requested site - exact for all tensor values. The same on trees (tn.gs.optimize_ttns on every tree shape: two-site problem on every bond around every subtree; stub at eigh_iterative). A numeric pass with the real kernels adds what the stubs cannot decide: the frames of every local problem are orthonormal (bounded). "
                      "Engine S kernel-stub mode: the renormalised-basis update of the two-site algorithm (_update_mps: svd_qn -> compute_m_trunc -> select_basis -> write back), single root with "
                      "and without the per-sector perturbation and state-averaged (every root reproduced by the kept basis), loses nothing and keeps the labels valid for all tensor values. "
                      "Engine S: for symbolic chain states (any tensors) the matrix the optimiser diagonalises at every site (1-site) and every pair of sites (2-site) - "
